@@ -24,7 +24,7 @@ for p in range(1,21):
         if not os.path.isdir(src) or sid not in needs: continue
         if os.path.isdir(dst): shutil.rmtree(dst)
         os.makedirs(dst)
-        for f in ("patch.diff","RUN.txt","NOTES.md","demo_test.go","patch.orig-before-9e3f5aa.diff","patch.orig-before-4d12552.diff"):
+        for f in ("patch.diff","RUN.txt","NOTES.md","demo_test.go","patch.orig-before-9e3f5aa.diff","patch.orig-before-4d12552.diff","patch.orig-before-85932a2.diff"):
             if os.path.exists(src+"/"+f):
                 shutil.copy(src+"/"+f, dst+"/"+f)
         if os.path.isdir(src+"/demo"):
